@@ -721,6 +721,8 @@ class ConsumerGroup(Coordinator):
             consumer_kwargs = {}
         self.consumer_kwargs = consumer_kwargs
         self.consumers = {}
+        # is stop() shutting down the consumers, about to leave the group?
+        self._stop_in_progress = False
 
     def __repr__(self):
         return "<afkak.{} 0x{:x} for {!r} {} member_id={!r}>".format(
@@ -865,5 +867,18 @@ class ConsumerGroup(Coordinator):
         This waits for any ongoing processing to complete and commits offsets.
         It may take some time.
         """
-        yield self.shutdown_consumers()
-        yield super(ConsumerGroup, self).stop(errback_result=errback_result)
+        self._stop_in_progress = True
+        try:
+            yield self.shutdown_consumers()
+            yield super(ConsumerGroup, self).stop(errback_result=errback_result)
+        finally:
+            self._stop_in_progress = False
+
+    def join_and_sync(self):
+        if self._stop_in_progress:
+            # stop() is waiting for the consumers to shut down and leaves the
+            # group next: rejoining now would start consumers of a new
+            # generation next to the ones still shutting down.
+            self._rejoin_wait_dc = None
+            return
+        return super(ConsumerGroup, self).join_and_sync()
